@@ -310,15 +310,37 @@ def run_pairs(r, iface, only=None, only_stack=None):
 
 
 def shards(tier, seed):
-    out = [("pairs", iface, name, k) for iface in ("wsgi", "asgi") for name in PAIR_APPS[iface] for k in range(len(PAIR_STACKS))]
+    out = [("threads",)] + [("pairs", iface, name, k) for iface in ("wsgi", "asgi") for name in PAIR_APPS[iface] for k in range(len(PAIR_STACKS))]
     for iface in ("wsgi", "asgi"):
         for name in list(recipes(iface, "/dev/null")) + list(raw_apps(iface)):
             out.append(("app", iface, name))
     return out
 
 
+def thread_family(r, tier):
+    from ..core.runner import REPO
+    files = [os.path.join(REPO, "baize", x) for x in ("wsgi/middleware.py", "wsgi/shortcut.py", "datastructures.py")]
+    d = tempfile.mkdtemp(prefix="c20-", dir=os.environ.get("VERIF_SCRATCH", "/tmp"))
+    try:
+        tmpfile = os.path.join(d, "f.txt")
+        with open(tmpfile, "wb") as f:
+            f.write(b"0123456789")
+        for name, stack in (("echo", ("E", "M")), ("cookies", ("M",)), ("list_caps", ("M", "E"))):
+            app, _ = build("wsgi", name, stack, tmpfile)
+            reqs = {"A": SV.AReq(method="POST", headers=[("Content-Type", "text/plain"), ("X-Req", "A")], chunks=[b"body-of-A"]),
+                    "B": SV.AReq(method="POST", headers=[("Content-Type", "text/plain"), ("X-Req", "B")], chunks=[b"B"]),
+                    "G": SV.AReq(method="GET")}
+            SV.wsgi_thread_pairs(r, f"{name} under {'>'.join(stack)}", app, reqs, [("A", "B"), ("A", "G"), ("B", "G")], files, bound=1)
+        r.sample({"threads": "two requests through one wrapped WSGI app object, line-level schedules in middleware.py/shortcut.py/datastructures.py"})
+    finally:
+        shutil.rmtree(d, ignore_errors=True)
+
+
 def run_shard(desc, tier):
     r = R()
+    if desc[0] == "threads":
+        thread_family(r, tier)
+        return r
     if desc[0] == "pairs":
         run_pairs(r, desc[1], desc[2], desc[3])
         return r
@@ -383,6 +405,10 @@ def finish(merged, tier):
 
 
 def replay(w):
+    if "threads" in w:
+        r = R()
+        thread_family(r, "quick")
+        return bool(r.viol), {"violations": sorted(r.viol), "texts": [v[2][:300] for v in r.viol.values()]}
     if "pairs" in w:
         r = R()
         run_pairs(r, w["pairs"], w["app"])
